@@ -427,6 +427,7 @@ func (p *nftParser) clause() error {
 					return gapf("concatenation compared with %q, expected a named set", s)
 				}
 				name := s[1:]
+				p.r.setRefs = append(p.r.setRefs, setRef{name, 2})
 				p.cond(func(st *state) (bool, error) {
 					set, err := st.setLookup(name)
 					if err != nil {
@@ -450,6 +451,7 @@ func (p *nftParser) clause() error {
 			}
 			if strings.HasPrefix(v, "@") {
 				name := v[1:]
+				p.r.setRefs = append(p.r.setRefs, setRef{name, 1})
 				p.cond(func(st *state) (bool, error) {
 					set, err := st.setLookup(name)
 					if err != nil {
